@@ -9,14 +9,14 @@ RULE = ("case = one history of 15-65 operations over 1-4 evbuffers with 0-6 call
         "byte-string model says were added/removed since its registration, at every flush point; non-trivial = a content-changing op "
         "succeeded while callbacks were registered; distinct = hash of the op sequence")
 
-STEPS = [dict(flavor="asan", harness="h_evbuf", args=["--mode", "callbacks"], cases=dict(quick=3000, thorough=200000), timeout=dict(quick=900, thorough=7200))]
+STEPS = [dict(flavor="asan", harness="h_evbuf", args=["--mode", "callbacks"], cases=dict(quick=3000, thorough=120000), timeout=dict(quick=900, thorough=7200))]
 REQUIRED = ["cb_invocations", "cb_deferred_invocations", "cb_deferred_aggregated_reports", "deferred_flushes_with_pending",
             "cb_obsolete_invocations", "cb_disabled", "cb_nodefer_set", "cb_remove_self", "cb_disable_self", "cb_reentrant_add",
             "cb_reentrant_drain", "cb_sums_judged", "loop_steps", "buffers_deferred", "cb_registered", "cb_removed",
             "cb_reports_with_add_and_del", "op_remove_buffer", "op_add_buffer", "op_readln", "op_reserve_commit", "op_add_buffer_reference"]
 
 REG = dict(category="exploration",
-           text="Runtime monitor of every evbuffer callback invocation over ~1.3e5 (quick) / ~9e6 (thorough) operations in random histories "
+           text="Runtime monitor of every evbuffer callback invocation over ~1.3e5 (quick) / ~5e6 (thorough) operations in random histories "
                 "with immediate and deferred delivery, flag toggling and self-modifying callbacks: per-invocation identity, report chaining, "
                 "and per-callback sums against an independent byte-string ledger, under ASan+UBSan. Held-on-observed.",
            note="trusts the ledger in harness/h_evbuf.c; a callback registered on a deferred buffer with changes pending may or may not see them "
